@@ -23,7 +23,7 @@ func main() {
 	var samples []any
 	observed := map[string]any{}
 	assume := map[string]bool{}
-	var assumeList []string
+	assumeList := []string{}
 	exhaustive := true
 	level := ""
 	seed := int64(1)
